@@ -135,12 +135,21 @@ def make_scenario(streams, quarantine=()):
         est = r.choice(EST)
         if est is not None:
             kw['estimate'] = est
-        sp = r.choice([None, None, 0, 1, 0.5, 'over'])
+        sp = r.choice([None, None, 0, 1, 0.5, 'over', 'tiny'])
         if sp == 'over':
             sp = (est or 0) + 1
+        elif sp == 'tiny':
+            # remaining work of float-noise size: 0.1 + 0.2 - 0.3
+            est, sp = r.choice([(0.1 + 0.2, 0.3), (1e-12, None), (1.1 + 2.2, 3.3), (5e-324, None)])
+            kw['estimate'] = est
+            kw['_tiny'] = True
         if sp is not None:
             kw['spent'] = sp
         res = r.choice(RES_POOL)
+        if kw.pop('_tiny', False):
+            # keep float-noise amounts on a resource of their own: a noise-size row of an ordinary task would
+            # put a work day at its end date (less than a microsecond of work), which no statement speaks about
+            res = 'rtiny'
         if res is not None:
             kw['resource'] = res
         if r.random() < 0.08:
@@ -184,6 +193,11 @@ def make_scenario(streams, quarantine=()):
         for t in leaves:
             x = r.random()
             if t['kw'].get('milestone'):
+                # a milestone may carry dates from an earlier plan or a CSV file; they do not bind the scheduler
+                if x < 0.3:
+                    t['kw']['start'] = iso(P + _dt.timedelta(days=r.randint(-40, 10), hours=r.choice([0, 0, 9])))
+                    if x < 0.12:
+                        t['kw']['end'] = iso(P - _dt.timedelta(days=r.randint(4000, 4400)))
                 continue
             if x < 0.08:
                 t['kw']['start'] = iso(P + _dt.timedelta(days=r.randint(-20, 10), hours=r.choice([0, 0, 9])))
@@ -310,6 +324,57 @@ def make_scenario(streams, quarantine=()):
             by_res.setdefault(t['kw'].get('resource'), []).append(t['name'])
         shared = [x for v in by_res.values() if len(v) > 1 for x in v]
         ops.append({'op': 'calc_minus', 'sched': 'A', 'clock': clock, 'remove': ro.choice(shared or names), 'ref': 0})
+    # an earlier result fed back into a scheduler (dates cleared): typical "re-plan" use
+    if klass == 'ok' and ro.random() < 0.12:
+        ops.append({'op': 'calc', 'sched': ro.choice(['A', 'A', 'B']), 'fresh': ro.random() < 0.5, 'clock': clock, 'on_result': 0,
+                    'clear': ro.random() < 0.6})
+    # WBS edited between two calcs (history dimension): the same scheduler object sees a changed WBS
+    if klass == 'ok' and ro.random() < 0.3 and n >= 1:
+        st3 = Struct(sc)
+        edits = []
+        for _ in range(ro.choice([1, 1, 2])):
+            k = ro.choice(['add_link', 'add_link', 'remove_link', 'set_kw', 'late_cycle', 'cal_edit', 'cal_edit'])
+            if k == 'add_link' and n >= 2:
+                a, b = ro.sample(names, 2)
+                if a in st3.ancestors(b) or b in st3.ancestors(a) or [a, b] in sc['links']:
+                    continue
+                trial = dict(sc, links=sc['links'] + [x['m']['link'] for x in edits if x['m']['kind'] == 'add_link'] + [[a, b]])
+                if Struct(trial).expanded_cyclic() or direct_cycle(Struct(trial)):
+                    continue
+                edits.append({'op': 'mutate', 'm': {'kind': 'add_link', 'link': [a, b]}})
+            elif k == 'remove_link' and sc['links']:
+                l = ro.choice([x for x in sc['links'] if x[1] in names] or [None])
+                if l:
+                    edits.append({'op': 'mutate', 'm': {'kind': 'remove_link', 'link': list(l)}})
+            elif k == 'set_kw':
+                t = ro.choice(leaves)
+                edits.append({'op': 'mutate', 'm': {'kind': 'set_kw', 'task': t['name'], 'key': ro.choice(['estimate', 'spent']),
+                                                   'value': ro.choice([0, 1, 2, 5, 0.5, None])}})
+            elif k == 'cal_edit' and supplied:
+                def has_direct(spec):
+                    return isinstance(spec, dict) and (spec.get('t') == 'direct' or has_direct(spec.get('a')) or has_direct(spec.get('b')))
+                editable = [x['name'] for x in sc['resources'] if x['name'] in supplied and (x['kind'] == 'sim' or has_direct(x.get('cal')))
+                            and any(t['kw'].get('resource') == x['name'] for t in leaves)]
+                if editable:
+                    # a day the schedule is likely to use: the first days from the project date on
+                    edits.append({'op': 'mutate', 'm': {'kind': 'cal_set_units', 'res': ro.choice(editable), 'idx': ro.randrange(3),
+                                                       'date': iso(base_day + _dt.timedelta(days=ro.choice([0, 0, 1, 1, 2, 3, 4, 7, -1, 12]))),
+                                                       'units': ro.choice([0, 0.5, 4, 8, 16, 100])}})
+            elif k == 'late_cycle' and not edits:
+                cands = [(a, l, b) for a in names if not st3.is_leaf(a) for l in st3.leaves(a) for b in names
+                         if b != a and b not in st3.descendants(a) and b not in st3.ancestors(a)
+                         and not set(st3.descendants(b)) & set([a] + st3.descendants(a))]
+                if cands:
+                    a, l, b = ro.choice(cands)
+                    trial = dict(sc, links=sc['links'] + [[l, b], [b, a]])
+                    if not direct_cycle(Struct(trial)):
+                        edits.append({'op': 'mutate', 'm': {'kind': 'add_link', 'link': [l, b]}})
+                        edits.append({'op': 'mutate', 'm': {'kind': 'add_link', 'link': [b, a]}})
+                        sc['klass'] = 'late_cycle'
+                        break
+        if edits:
+            ops += edits
+            ops.append({'op': 'calc', 'sched': 'A', 'fresh': ro.random() < 0.4, 'clock': clock})
     sc['ops'] = ops
     return sc
 
